@@ -1881,6 +1881,9 @@ def c11_problems(it, key, imp):
     w = meta['where']
     want_w = w.get(cp, w.get(None))
     want_preds = [oracles.nsp(x) for x in split_top(want_w)] if want_w else []
+    # the deriving type's own predicates come first, in order (the impl must repeat them to type-check)
+    own = [oracles.nsp(x) for x in split_top(meta.get('own_where') or '') if x.strip()]
+    want_preds = own + want_preds
     if [oracles.nsp(x) for x in wheres] != want_preds:
         probs.append('where clause: expected %r, found %r' % (want_preds, wheres))
     return probs
